@@ -19,15 +19,26 @@ def rules(t):
         for s in budget_stores(t, f):
             r.site(s)
             v = strip(t.stored(s))
-            if not (isinstance(v, tuple) and v[0] == "field" and v[1][0] == "bin" and v[1][1] == "SubWithOverflow"): r.bad(f"{name}|not-sub", s, f"budget written with {fmt(v)[:50]}"); continue
-            x = v[1][3]
+            x = None
+            if isinstance(v, tuple) and v[0] == "field" and isinstance(v[1], tuple) and v[1][0] == "bin" and v[1][1] == "SubWithOverflow": x = v[1][3]
+            elif "checked_sub" in fmt(v):
+                # `let Some(rest) = budget.checked_sub(x) else { skip }; *budget = rest`
+                def find_cs(o):
+                    if isinstance(o, tuple):
+                        if o and o[0] == "call" and method_of(o[1]) == "checked_sub" and len(o[2]) == 2: return o
+                        for y in o:
+                            z = find_cs(y) if isinstance(y, tuple) else None
+                            if z: return z
+                    return None
+                cs = find_cs(v)
+                if cs is not None and "available_bytes" in fmt(cs[2][0]): x = cs[2][1]
+            if x is None: r.bad(f"{name}|not-sub", s, f"budget written with {fmt(v)[:50]}"); continue
+            is_budget = lambda a: "available_bytes" in fmt(a) and fmt(strip(a)).lstrip("*").startswith("P")
             ok = False
-            for br, op, te, fe in t.find_cmp(f, lambda a: "available_bytes" in fmt(a) and fmt(strip(a)).startswith("P"), lambda b: True, None):
-                if op != "Lt" or not t.edge_dominates(f, fe, s.bb): continue
-                rhs = br["cond"][3] if "available_bytes" in fmt(br["cond"][2]) else br["cond"][2]
-                if same(rhs, x): ok = True
-                elif const_eval(rhs) is not None and "slice(" in fmt(x): ok = ("SLICE" if False else True) and const_eval(rhs) == t.F.consts["renet::packet::SLICE_SIZE"]["val"]
-            if not ok: r.bad(f"{name}|unguarded|{fmt(x)[:30]}", s, f"budget reduced by {fmt(x)[:50]} without a dominating `budget < x` test")
+            S_ = t.F.consts["renet::packet::SLICE_SIZE"]["val"]
+            for e, br in rel_edges(t, f, is_budget, lambda b: same(b, x) or (const_eval(b) == S_ and "slice(" in fmt(x)), "Ge"):
+                if t.edge_dominates(f, e, s.bb): ok = True
+            if not ok: r.bad(f"{name}|unguarded|{fmt(x)[:30]}", s, f"budget reduced by {fmt(x)[:50]} without a dominating `budget >= x` test")
             # the amount charged is the length of the bytes that are emitted (not a separately computed estimate)
             xs = strip(x)
             if not (isinstance(xs, tuple) and xs[0] == "call" and xs[1].endswith("Bytes::len")): r.bad(f"{name}|charge-not-len", s, f"the budget is charged {fmt(x)[:60]}, which is not the length of the payload that is emitted: payload bytes can leave uncharged")
@@ -63,7 +74,14 @@ def rules(t):
         locs.add(fmt(o))
         if "available_bytes_per_tick" not in fmt(o) and "phi" not in fmt(o): pass
     if len(locs) != 1: r.bad("threading", calls[0] if calls else None, f"channels receive different budgets: {sorted(locs)}")
-    bl = [l["i"] for l in gp.locals if l.get("name") == "available_bytes"]
+    bl = []
+    for c in calls:
+        a = c.node["args"][2]
+        l_ = a["place"]["local"] if a["k"] in ("copy", "move") and not a["place"]["proj"] else None
+        tgt = t._ref_target(gp, l_) if l_ is not None else None
+        if tgt is not None and not tgt["proj"]: bl.append(tgt["local"])
+    bl = sorted(set(bl))
+    if len(bl) > 1: r.bad("threading-local", calls[0], "channels receive references to different budget variables")
     if bl:
         ds = gp.defs().get(bl[0], [])
         if len(ds) != 1 or "available_bytes_per_tick" not in fmt(gp._origin_of_def(ds[0][2], 0)): r.bad("init", None, "tick budget is not initialised exactly once from available_bytes_per_tick")
@@ -91,10 +109,17 @@ def rules(t):
         used = {a["place"]["local"] for x in t.sites(fc) if x.node["k"] == "call" for a in x.node["args"] if a["k"] in ("copy", "move") and not a["place"]["proj"]}
         for l_, x in muts.items():
             if l_ not in used: r.bad("order-borrow", x, "channel_send_order is mutably borrowed in a way the rule cannot follow")
+    READONLY = ("iter", "len", "is_empty", "deref", "index", "get", "first", "last", "as_slice", "into_iter", "contains")
     for x in t.sites():
         n = x.node
         if n["k"] == "assign" and n["rv"]["k"] in ("ref", "rawptr") and n["rv"].get("mut") and n["rv"]["place"]["proj"] and n["rv"]["place"]["proj"][-1].get("name") == "channel_send_order":
-            r.bad(f"{x.fn.path}|order-field-mut", x, "channel_send_order is mutably borrowed after construction")
+            # a mutable borrow is harmless as long as it only feeds read-only methods (e.g. `let Self { channel_send_order, .. } = self; for o in channel_send_order.iter()`)
+            fx = x.fn
+            for y in t.sites(fx):
+                a0_ = strip(t.arg(y, 0)) if y.node["k"] == "call" and y.node["args"] else None
+                direct = isinstance(a0_, tuple) and a0_[0] == "field" and a0_[2] == "channel_send_order"
+                if direct and method_of(callee_name(y.node)) not in READONLY:
+                    r.bad(f"{fx.path}|order-field-mut|{method_of(callee_name(y.node))}", y, f"channel_send_order is modified after construction by {short(callee_name(y.node))}()")
     for s in t.stores("remote_connection::RenetClient", "channel_send_order"):
         r.bad(f"{s.fn.path}|order-store", s, "channel_send_order is reassigned after construction")
     for s in t.effects("channel_send_order", GROW | SHRINK):
